@@ -181,6 +181,16 @@ def preimage(x, S, var):
             return preimage(p, S.shift(q[2]), var)
         if op == "sub" and gate.is_c(p):          # x = C - y  =>  y = C - x
             return preimage(q, S.negate().shift(p[2]), var)
+        if op in ("lshr", "ashr") and gate.is_c(q) and q[2] < S.bits:
+            # monotone: the preimage of [l,h] under y >> k is [l*2^k, h*2^k + 2^k - 1]
+            k = q[2]
+            if op == "lshr":
+                pre = ISet(S.bits, [(a << k, (b << k) + (1 << k) - 1) for a, b in S.ivs if a < (1 << (S.bits - k))])
+            else:
+                pre = ISet.empty(S.bits)
+                for a, b in S.signed_intervals():
+                    pre = pre | ISet.from_signed(S.bits, a << k, (b << k) + (1 << k) - 1)
+            return preimage(p, pre, var)
         if op in ("shl", "mul") and S.bits:
             c, y = (q, p) if gate.is_c(q) else ((p, q) if (gate.is_c(p) and op == "mul") else (None, None))
             zero = ISet(S.bits, [(0, 0)])
